@@ -100,7 +100,9 @@ def rule_phase(ctx, tu, eff):
                   "with the identical index", "the Euler update is not x[I] += dxdt[I]*dt at one index")
         it = c.methods["Iterate"]
         calls = [call_parts(x)[0] for x in walk(it.body) if x.get("kind") == "CXXMemberCallExpr"]
-        ctx.check(calls.index("Compute_dxdt") < calls.index("Apply_dxdt"), R, it.node, it.qual, "Compute_dxdt before Apply_dxdt", "", "")
+        ctx.check("Compute_dxdt" in calls and "Apply_dxdt" in calls and calls.index("Compute_dxdt") < calls.index("Apply_dxdt"),
+                  R, it.node, it.qual, "Compute_dxdt before Apply_dxdt", "all derivatives first, then the update",
+                  "Iterate does not run the whole derivative pass before the update pass (calls: %s)" % calls)
         # the derivative: reactions  += sto[s,r] * rate(i,r) ; diffusion  -= flux difference(i,s,n)
         ds = upd.summaries(comp, {"mesh_dxdt"})
         kinds = sorted((u.op, (call_parts(u.rhs) or ("",))[0] if u.rhs is not None and call_parts(u.rhs) else
@@ -276,6 +278,125 @@ def rule_py_siblings(ctx, py):
     ctx.floor(R, 15)
 
 
+def _bool_eval(e, truth):
+    """evaluate a boolean expression over comparison atoms; truth: normalised atom text -> bool; None if an atom is unknown"""
+    if isinstance(e, ast.BoolOp):
+        vs = [_bool_eval(v, truth) for v in e.values]
+        if any(v is None for v in vs):
+            return None
+        return all(vs) if isinstance(e.op, ast.And) else any(vs)
+    if isinstance(e, ast.UnaryOp) and isinstance(e.op, ast.Not):
+        v = _bool_eval(e.operand, truth)
+        return None if v is None else not v
+    if isinstance(e, ast.Compare) and len(e.ops) == 1 and isinstance(e.ops[0], (ast.Eq, ast.NotEq)):
+        a, b = pyfe.src(e.left), pyfe.src(e.comparators[0])
+        v = truth.get((a, b), truth.get((b, a)))
+        if v is None:
+            return None
+        return v if isinstance(e.ops[0], ast.Eq) else not v
+    return None
+
+
+def rule_graph_neighbours(ctx, py):
+    """C01.NEIGH -- the graph is undirected: an edge (a, b) makes b a neighbour of a and a a neighbour of b, in the lookup
+    `get_edge` and in the neighbour enumeration of the graph kinetics."""
+    R = "C01.NEIGH"
+    g = py.fn("rdgraphspace.RDGraphSpace.get_edge")
+    pi, pj = [p for p in pyfe.params(g) if p != "self"][:2]
+    rets = [(r, pyfe.parent(r)) for r in ast.walk(g) if isinstance(r, ast.Return) and r.value is not None and
+            not (isinstance(r.value, ast.Constant) and r.value.value is None)]
+    ctx.need(len(rets) == 1 and isinstance(rets[0][1], ast.If), R, "get_edge: a single guarded `return edge` not found")
+    test = rets[0][1].test
+    ev = pyfe.src(rets[0][0].value)
+    fwd = {(ev + ".i", pi): True, (ev + ".j", pj): True, (ev + ".i", pj): False, (ev + ".j", pi): False}
+    bwd = {(ev + ".i", pi): False, (ev + ".j", pj): False, (ev + ".i", pj): True, (ev + ".j", pi): True}
+    none = {(ev + ".i", pi): True, (ev + ".j", pj): False, (ev + ".i", pj): False, (ev + ".j", pi): False}
+    ctx.check(_bool_eval(test, fwd) is True and _bool_eval(test, bwd) is True and _bool_eval(test, none) is False, R, rets[0][1],
+              g._qual, "if " + pyfe.src(test)[:90], "matches the edge in both orientations and nothing else",
+              "get_edge does not match an edge exactly when its end points are {i, j} in either order")
+    f = py.fn("kinetics._compute_dspeciesdt_graph")
+    # the loop that adds the diffusion terms: for j in <L>: ... compute_diffusion_rates(system, species, position, j, ...)
+    loops = [n for n in ast.walk(f) if isinstance(n, ast.For) and any(
+        pyfe.call_name(c).endswith("compute_diffusion_rates") for c in pyfe.calls_in(n))]
+    ctx.need(len(loops) == 1 and isinstance(loops[0].target, ast.Name), R, "_compute_dspeciesdt_graph: diffusion loop not found")
+    it = loops[0].iter
+    pos = "position"
+    size_ok = lambda e: norm(pyfe.src(e)) in ("range(system.space.size())", "range(space.size())", "range(len(system.space.nodes))")
+    norm = lambda t: t.replace(" ", "")
+
+    def edge_test(t, var):
+        """does test t require get_edge(position, var) (either argument order) to exist?"""
+        for a_, pol in pya.atoms(t, True):
+            m = norm(a_)
+            for x, y in ((pos, var), (var, pos)):
+                for pre in ("system.space.get_edge(%s,%s)" % (x, y), "space.get_edge(%s,%s)" % (x, y)):
+                    if (m in (pre + "isNone", pre + "==None") and pol is False) or (m == pre and pol is True):
+                        return True
+        return False
+    sources = []     # (node, kind, detail)
+    if isinstance(it, ast.Name):
+        L = it.id
+        for n in ast.walk(f):
+            if isinstance(n, ast.Assign) and len(n.targets) == 1 and pyfe.src(n.targets[0]) == L and \
+                    isinstance(n.value, ast.ListComp):
+                sources.append((n, "comp", n.value))
+            elif isinstance(n, ast.Call) and isinstance(n.func, ast.Attribute) and n.func.attr == "append" and \
+                    pyfe.src(n.func.value) == L:
+                sources.append((n, "append", n))
+    elif isinstance(it, ast.ListComp):
+        sources.append((it, "comp", it))
+    ctx.need(sources, R, "_compute_dspeciesdt_graph: the neighbour list is not built by a comprehension or by append")
+    orient = set()
+    for node, kind, d in sources:
+        if kind == "comp":
+            gen = d.generators[0]
+            var = pyfe.src(gen.target)
+            okk = len(d.generators) == 1 and size_ok(gen.iter) and pyfe.src(d.elt) == var and \
+                any(edge_test(c, var) for c in gen.ifs)
+            extra = [c for c in gen.ifs if not edge_test(c, var) and norm(pyfe.src(c)) not in (
+                "%s!=%s" % (var, pos), "%s!=%s" % (pos, var))]
+            ctx.check(okk and not extra, R, node, f._qual, pyfe.src(d)[:100], "every j with an edge {position, j}",
+                      "the neighbour list is not `all j of the space with get_edge(position, j)`" +
+                      (": extra filter " + pyfe.src(extra[0]) if extra else ""))
+            if okk:
+                orient |= {"ij", "ji"}
+            continue
+        # append under guards inside a loop
+        lp = pyfe.parent(node)
+        guards = []
+        while lp is not None and lp is not f and not isinstance(lp, ast.For):
+            if isinstance(lp, ast.If):
+                guards.append(lp.test)
+            lp = pyfe.parent(lp)
+        ctx.need(isinstance(lp, ast.For), R, "_compute_dspeciesdt_graph: append to the neighbour list outside a loop")
+        var = pyfe.src(lp.target)
+        app = pyfe.src(d.args[0])
+        if size_ok(lp.iter):
+            okk = app == var and any(edge_test(t, var) for t in guards)
+            extra = [t for t in guards if not edge_test(t, var) and norm(pyfe.src(t)) not in ("%s!=%s" % (var, pos),
+                                                                                           "%s!=%s" % (pos, var))]
+            ctx.check(okk and not extra, R, node, f._qual, "append(%s) if %s" % (app, " and ".join(pyfe.src(t) for t in guards)),
+                      "every j with an edge {position, j}", "the neighbour list is not `all j with get_edge(position, j)`")
+            if okk and not extra:
+                orient |= {"ij", "ji"}
+        elif norm(pyfe.src(lp.iter)) in ("system.space.edges", "space.edges"):
+            facts = [norm(a_) for t in guards for a_, pol in pya.atoms(t, True) if pol]
+            if "%s.i==%s" % (var, pos) in facts or "%s==%s.i" % (pos, var) in facts:
+                if app == var + ".j":
+                    orient.add("ij")
+            if "%s.j==%s" % (var, pos) in facts or "%s==%s.j" % (pos, var) in facts:
+                if app == var + ".i":
+                    orient.add("ji")
+            ctx.ok(R, node, f._qual, "append(%s) if %s" % (app, " and ".join(pyfe.src(t) for t in guards))[:110],
+                   "one orientation of the edge list", nontrivial=False)
+        else:
+            ctx.error(R, "_compute_dspeciesdt_graph: neighbour enumeration over `%s` not recognised" % pyfe.src(lp.iter)[:60])
+    ctx.check(orient == {"ij", "ji"}, R, loops[0], f._qual, "neighbours of `position`", "edges are followed from both end points",
+              "only the edges written with `position` %s are followed: diffusion towards the other neighbours is dropped and "
+              "totals are no longer conserved" % ("first" if orient == {"ij"} else "second" if orient == {"ji"} else "?"))
+    ctx.floor(R, 3)
+
+
 def run(ctx):
     tu, py = ctx.cx, ctx.py
     I = idxmod.Idx(tu)
@@ -298,6 +419,7 @@ def run(ctx):
     ctx.floor("C01.FLUX", 3)
     rule_env(ctx, tu, py, I)
     rule_py_siblings(ctx, py)
+    rule_graph_neighbours(ctx, py)
     ctx.assume("agreement to rounding is not decided; that the mean is harmonic is decided only relatively (all four "
                "implementations are the same symmetric rational function of the right dimension)")
     ctx.assume("RDSystem size invariant (state / chemostat map have space.size()*nspecies() entries) for the FFI extents")
